@@ -84,6 +84,9 @@ pub enum COp {
 
 #[derive(Clone, Debug, Serialize, Deserialize, PartialEq, Eq, Hash)]
 pub struct DataCase {
+    /// node playing the metadata leader (0 = node 1)
+    #[serde(default)]
+    pub raft_leader: u8,
     pub nodes: u8,
     pub threshold: u8,
     pub ntopics: u8,
@@ -122,13 +125,54 @@ fn safe_rollover_strategy() -> BoxedStrategy<DataCase> {
             for c in consumers {
                 clients.push((1, c));
             }
-            DataCase { nodes: 1, threshold, ntopics, monitor, clients, schedule, drain_node: 1 }
+            DataCase { raft_leader: 0, nodes: 1, threshold, ntopics, monitor, clients, schedule, drain_node: 1 }
+        })
+        .boxed()
+}
+
+/// the node `ensure_topic` picks as initial leader of a topic (same computation as the controller)
+pub fn initial_leader(topic: &str, nodes: u8) -> u8 {
+    use std::hash::{Hash, Hasher};
+    let mut h = std::collections::hash_map::DefaultHasher::new();
+    topic.hash(&mut h);
+    ((h.finish() as usize) % nodes.max(1) as usize) as u8 + 1
+}
+
+/// multi-node shape in which a rollover is fenced: one topic whose initial segment leader is also
+/// the metadata leader (it applies its own rollover before acknowledging the PUT that caused it),
+/// one sequential producer that sends through any node, at most one rollover (fewer than 2 x
+/// threshold PUTs), no Monitor; followers lag as the schedule likes, pure consumers anywhere
+fn fenced_multinode_strategy() -> BoxedStrategy<DataCase> {
+    (
+        2u8..=3,
+        1u8..=4,
+        proptest::collection::vec(1u8..=3, 8),
+        1usize..8,
+        proptest::collection::vec((1u8..=3, proptest::collection::vec(Just(COp::Get { t: 0 }), 1..8)), 0..3),
+        proptest::collection::vec(any::<u8>(), 0..400),
+        1u8..=3,
+        proptest::collection::vec(any::<bool>(), 8),
+    )
+        .prop_map(|(nodes, threshold, via, extra, consumers, schedule, drain_node, mix)| {
+            let puts = (threshold as usize + extra).min(2 * threshold as usize - 1).max(1);
+            // the producer hops between nodes: one lock-step client per hop would not be
+            // sequential, so it is one client bound to one node; the node is generated
+            let mut ops = Vec::new();
+            for k in 0..puts {
+                ops.push(COp::Put { t: 0 });
+                if mix[k % mix.len()] {
+                    ops.push(COp::Get { t: 0 });
+                }
+            }
+            let mut clients = vec![(via[0], ops)];
+            clients.extend(consumers);
+            DataCase { raft_leader: initial_leader(TOPICS[0], nodes), nodes, threshold, ntopics: 1, monitor: false, clients, schedule, drain_node }
         })
         .boxed()
 }
 
 pub fn data_strategy() -> BoxedStrategy<DataCase> {
-    prop_oneof![3 => general_data_strategy(), 2 => safe_rollover_strategy()].boxed()
+    prop_oneof![3 => general_data_strategy(), 2 => safe_rollover_strategy(), 2 => fenced_multinode_strategy()].boxed()
 }
 
 fn general_data_strategy() -> BoxedStrategy<DataCase> {
@@ -142,7 +186,7 @@ fn general_data_strategy() -> BoxedStrategy<DataCase> {
         proptest::collection::vec(any::<u8>(), 0..400),
         1u8..=3,
     )
-        .prop_map(|(nodes, threshold, ntopics, monitor, clients, schedule, drain_node)| DataCase { nodes, threshold, ntopics, monitor, clients, schedule, drain_node })
+        .prop_map(|(nodes, threshold, ntopics, monitor, clients, schedule, drain_node)| DataCase { raft_leader: 0, nodes, threshold, ntopics, monitor, clients, schedule, drain_node })
         .boxed()
 }
 
@@ -167,7 +211,7 @@ pub fn to_sim(c: &DataCase) -> SimCase {
         }
         clients.push(SimClient { node: *node, kind: ClientKind::Lockstep { frames } });
     }
-    SimCase { nodes: c.nodes, threshold: c.threshold, topics, monitor: c.monitor, clients, schedule: c.schedule.clone(), drain_node: c.drain_node, max_steps: 400_000, data_plane: true }
+    SimCase { nodes: c.nodes, threshold: c.threshold, topics, monitor: c.monitor, clients, schedule: c.schedule.clone(), drain_node: c.drain_node, max_steps: 400_000, data_plane: true, raft_leader: c.raft_leader }
 }
 
 pub struct Judged {
@@ -369,7 +413,15 @@ pub fn exclude_rollover_race(c: &DataCase) -> (DataCase, bool) {
             }
         }
     }
-    let safe = c.nodes <= 1 && !c.monitor && producers.values().all(|s| s.len() <= 1);
+    let single_node = c.nodes <= 1 && !c.monitor && producers.values().all(|s| s.len() <= 1);
+    let puts: usize = c.clients.iter().map(|(_, ops)| ops.iter().filter(|o| matches!(o, COp::Put { .. })).count()).sum();
+    let fenced_multi = c.nodes >= 2
+        && c.ntopics == 1
+        && !c.monitor
+        && producers.values().all(|s| s.len() <= 1)
+        && c.raft_leader == initial_leader(TOPICS[0], c.nodes)
+        && puts < 2 * c.threshold.max(1) as usize;
+    let safe = single_node || fenced_multi;
     if safe {
         (c.clone(), false)
     } else {
@@ -589,6 +641,7 @@ pub fn proto_to_sim(c: &ProtoCase) -> (SimCase, Vec<(Expect, String)>, Vec<(u8, 
         drain_node: 1,
         max_steps: 300_000,
         data_plane: false,
+        raft_leader: 0,
     };
     (sim, exp, puts)
 }
